@@ -606,6 +606,9 @@ def drv_misuse(doc, args, inst):
         'permute_dup': lambda: tt.permute(r([2, 3, 4]), [1, 1, 0]),
         'permute_range': lambda: tt.permute(r([2, 3, 4]), [1, 2, 3]),
         'reshape_count': lambda: tt.reshape(r([2, 3]), [5]),
+        'reshape_ttm_rows': lambda: tt.reshape(r([(2, 2), (2, 8)]), [(5, 16)]),
+        'reshape_ttm_cols': lambda: tt.reshape(r([(2, 2), (2, 8)]), [(4, 15)]),
+        'reshape_ttm_swap': lambda: tt.reshape(r([(2, 2), (2, 8)], [1, 1, 1]), [(2, 2), (4, 4)]),
         'save_not_tt': lambda: tt.save(tn.randn(3), '/var/tmp/_ttvc_should_not_exist.TT'),
         'random_bad_R': lambda: tt.random([2, 3], [2, 2, 1]),
         'random_len_R': lambda: tt.random([2, 3], [1, 2, 2, 1]),
@@ -661,6 +664,13 @@ def drv_copies(doc, args, inst):
     msgs = []
     x = build(inst, args['x'], 5)
     op = args['op']
+    if op == 'clone_tracked':
+        for c in x.cores:
+            c.requires_grad_(True)
+        r = x.clone()
+        if any(a.data_ptr() == b.data_ptr() for a, b in zip(r.cores, x.cores)):
+            msgs.append('clone of a watched tensor shares storage with the original')
+        return msgs
     if op == 'detach_tracked':
         for c in x.cores:
             c.requires_grad_(True)
